@@ -2,9 +2,9 @@
 
 pysym/SymStr on the real read_sources, exec_python, make_ffi_from_sources, generate_c_source,
 write_c_source and find_ffi_in_python_script of src/cffi/_cffi_gen_src.py.
-FFI is replaced by a recorder whose emit_c_code writes GEN, a fresh symbolic text standing for
-"whatever emit_c_code produces for these inputs" (uninterpreted); files, sys.stdout and open() are
-stubs.  Symbolic: cdef text, prelude, module name, generated text (every Unicode string of the given
+FFI is replaced by a recorder whose emit_c_code is the REAL FFI.emit_c_code (-> recompile -> make_c_source); only the
+Recompiler class is replaced by one that writes GEN, a fresh symbolic text standing for "whatever the generator produces
+for these inputs" (uninterpreted); the generator's print() and sys.stdout are one recorded stream; files and open() are stubs.  Symbolic: cdef text, prelude, module name, generated text (every Unicode string of the given
 lengths), the output argument ('-' or a path), the --ffi-var name.
 Obligations: FFI().cdef gets exactly the cdef text, set_source exactly (name, prelude); exactly
 GEN is written, once, to stdout iff output == '-', else to open(output, 'w', encoding='utf-8');
@@ -15,6 +15,51 @@ import os, sys, json, ast
 import z3
 from vf import common, llsym, pysym, symstr, hutil
 from harness.C23 import sym_eq
+
+
+REPLAY = r"""
+# Replay for C24 on the real tool: `python -m cffi.gen_src` must write exactly the bytes FFI.emit_c_code() produces,
+# to the output file and -- for an output of '-' -- to stdout.
+import sys, os, json, subprocess, tempfile, atexit, shutil
+import cffi
+d = tempfile.mkdtemp(); atexit.register(shutil.rmtree, d, True)
+cdef, prelude, name = "int sq(int);\n", "static int sq(int x) { return x * x; }\n", "_c24_replay"
+open(os.path.join(d, 'a.cdef'), 'w', newline='').write(cdef); open(os.path.join(d, 'a.c'), 'w', newline='').write(prelude)
+open(os.path.join(d, 'b.py'), 'w').write("import cffi\nffibuilder = cffi.FFI()\nffibuilder.cdef(%r)\nffibuilder.set_source(%r, %r)\n" % (cdef, name, prelude))
+ffi = cffi.FFI(); ffi.cdef(cdef); ffi.set_source(name, prelude)
+ref = os.path.join(d, 'ref.c')
+with open(os.devnull, 'w') as null:
+    so = os.dup(1); os.dup2(null.fileno(), 1)
+    try: ffi.emit_c_code(ref)
+    finally: os.dup2(so, 1)
+want = open(ref, 'rb').read()
+bad = []
+env = dict(os.environ)
+for label, argv in (('read-sources', ['read-sources', name, os.path.join(d, 'a.cdef'), os.path.join(d, 'a.c')]),
+                    ('exec-python', ['exec-python', os.path.join(d, 'b.py')])):
+    out = os.path.join(d, label + '.c')
+    r = subprocess.run([sys.executable, '-m', 'cffi.gen_src'] + argv + [out], stdout=subprocess.PIPE, stderr=subprocess.PIPE, env=env)
+    if r.returncode != 0 or open(out, 'rb').read() != want:
+        bad.append('%s to a file: exit %d, bytes %s' % (label, r.returncode, 'differ' if r.returncode == 0 else 'n/a'))
+    r = subprocess.run([sys.executable, '-m', 'cffi.gen_src'] + argv + ['-'], stdout=subprocess.PIPE, stderr=subprocess.PIPE, env=env)
+    if r.returncode != 0 or r.stdout != want:
+        extra = r.stdout[:60] if r.stdout != want else b''
+        bad.append("%s to '-': stdout is not the emit_c_code() text (starts with %r)" % (label, extra))
+for b in bad: print('VIOLATED:', b)
+sys.exit(1 if bad else 0)
+"""
+
+_replayed = {}
+
+
+def tool_replay(chk):
+    def replay(case):
+        if 'r' not in _replayed:
+            path = chk.write_replay('tool', REPLAY)
+            rc, out = common.run_replay(path, timeout=300)
+            _replayed['r'] = (common.replay_verdict(rc, out), path)
+        return _replayed['r']
+    return replay
 
 
 def _is_utf8(name):
@@ -37,7 +82,15 @@ def worker(args):
         pass
 
     def install(ex, rec, gen):
+        import cffi.api as real_api
+        import cffi.recompiler as R
+
         class FakeFFI(object):
+            """records what the tool asks for; emit_c_code is the REAL FFI.emit_c_code -> recompile -> make_c_source, with
+            only the Recompiler (the text generator proper) replaced by one that writes the uninterpreted text GEN"""
+            _windows_unicode = None
+            _embedding = None
+
             def __init__(self):
                 rec.ffis.append(self)
                 self.calls = []
@@ -47,16 +100,56 @@ def worker(args):
 
             def set_source(self, name, src, *a, **k):
                 self.calls.append(('set_source', name, src, a, k))
+                self._assigned_source = ('_verif_c24', src, '.c', {})
 
             def emit_c_code(self, out):
                 self.calls.append(('emit_c_code',))
-                out.write(gen)
+                real_api.FFI.emit_c_code(self, out)
+
+        class FakeRecompiler(object):
+            def __init__(self, ffi, module_name, target_is_python=False):
+                pass
+
+            def collect_type_table(self):
+                pass
+
+            def collect_step_tables(self):
+                pass
+
+            def write_source_to_f(self, f, preamble):
+                f.write(gen)
+
+        def chatter(*a, **k):
+            # print() of the generator goes to the process's stdout, like the tool's own sys.stdout.write
+            rec.stdout.append(('chatter', ' '.join(str(x) for x in a) + '\n'))
 
         class Buf(object):
-            def __init__(self):
+            """io.StringIO: newline='\\n' (the default) stores text unchanged; newline=None translates '\\r\\n' and '\\r'
+            to '\\n' on write; other modes are not modelled"""
+
+            def __init__(self, initial_value='', newline='\n'):
                 self.parts = []
+                self.newline = newline
+                if newline not in ('\n', None, ''):
+                    raise llsym.Unsupported('io.StringIO(newline=%r)' % (newline,))
+                if initial_value:
+                    self.write(initial_value)
 
             def write(self, s):
+                if self.newline is None and not isinstance(s, str):
+                    out, i, cs = [], 0, s.chars
+                    while i < len(cs):
+                        c = cs[i]
+                        if ex.decide(llsym.eq(c, 13, symstr.CW) if not isinstance(c, int) else c == 13):
+                            if i + 1 < len(cs) and ex.decide(llsym.eq(cs[i + 1], 10, symstr.CW) if not isinstance(cs[i + 1], int) else cs[i + 1] == 10):
+                                i += 1
+                            out.append(10)
+                        else:
+                            out.append(c)
+                        i += 1
+                    s = s._mk(out)
+                elif self.newline is None:
+                    s = s.replace('\r\n', '\n').replace('\r', '\n')
                 self.parts.append(s)
 
             def getvalue(self):
@@ -70,7 +163,7 @@ def worker(args):
 
         class Stdout(object):
             def write(self, s):
-                rec.stdout.append(s)
+                rec.stdout.append(('tool', s))
 
         class SysShim(object):
             stdout = Stdout()
@@ -90,14 +183,18 @@ def worker(args):
                     rec.closed.append(path)
                     return False
             return W()
-        saved = (G.FFI, G.io, G.sys)
+        saved = (G.FFI, G.io, G.sys, R.Recompiler)
         G.FFI, G.io, G.sys = FakeFFI, IoShim, SysShim
         G.open = fake_open
+        R.Recompiler = FakeRecompiler
+        R.print = chatter
         return saved, FakeFFI
 
     def restore(saved):
-        G.FFI, G.io, G.sys = saved
+        import cffi.recompiler as R
+        G.FFI, G.io, G.sys, R.Recompiler = saved
         del G.open
+        del R.print
 
     class InFile(object):
         def __init__(self, text, name):
@@ -114,14 +211,19 @@ def worker(args):
             return False
 
     def check_output(ex, rec, out_is_dash, outpath, gen, name, inputs):
-        total = rec.stdout + rec.written
-        hutil.discharge(chk, ex, name + ':written-exactly-once', len(total) == 1, inputs)
-        if len(total) == 1:
-            hutil.discharge(chk, ex, name + ':bytes==emit_c_code-text', sym_eq(total[0], gen), inputs)
+        rp = tool_replay(chk)
         if out_is_dash:
-            hutil.discharge(chk, ex, name + ':dash=>stdout-only', len(rec.stdout) == 1 and not rec.opened, inputs)
+            # everything that reaches stdout counts: the tool's own write and whatever the generator prints
+            total = [t for _, t in rec.stdout] + rec.written
         else:
-            okk = len(rec.opened) == 1 and not rec.stdout
+            total = [t for src_, t in rec.stdout if src_ == 'tool'] + rec.written
+        hutil.discharge(chk, ex, name + ':written-exactly-once', len(total) == 1, inputs, replay=rp)
+        if len(total) == 1:
+            hutil.discharge(chk, ex, name + ':bytes==emit_c_code-text', sym_eq(total[0], gen), inputs, replay=rp)
+        if out_is_dash:
+            hutil.discharge(chk, ex, name + ':dash=>stdout-only', len(rec.stdout) == 1 and not rec.opened, inputs, replay=rp)
+        else:
+            okk = len(rec.opened) == 1 and not [1 for src_, t in rec.stdout if src_ == 'tool']
             hutil.discharge(chk, ex, name + ':path=>file-only', okk, inputs)
             if okk:
                 p_, mode, kw = rec.opened[0]
@@ -166,11 +268,11 @@ def worker(args):
     elif what[0] == 'exec-python':
         variant, lg = what[1], what[2]
         scripts = {
-            'direct': 'import cffi._cffi_gen_src as G\nfb = G.FFI()\n',
-            'callable': 'import cffi._cffi_gen_src as G\ndef fb():\n    return G.FFI()\n',
+            'direct': 'import cffi._cffi_gen_src as G\nfb = G.FFI()\nfb.set_source("m", "")\n',
+            'callable': 'import cffi._cffi_gen_src as G\ndef fb():\n    f = G.FFI()\n    f.set_source("m", "")\n    return f\n',
             'wrong-type': 'fb = 42\n',
             'callable-wrong': 'def fb():\n    return "x"\n',
-            'main-guard': 'import cffi._cffi_gen_src as G\nfb = G.FFI()\nif __name__ == "__main__":\n    raise SystemExit(3)\n',
+            'main-guard': 'import cffi._cffi_gen_src as G\nfb = G.FFI()\nfb.set_source("m", "")\nif __name__ == "__main__":\n    raise SystemExit(3)\n',
         }
 
         def h(ex):
@@ -210,7 +312,7 @@ def worker(args):
                 hutil.discharge(chk, ex, name + ':nothing-written', not rec.stdout and not rec.written, inputs)
                 return
             hutil.discharge(chk, ex, name + ':FFI-resolved', outcome == 'ok' and len(rec.ffis) == 1
-                            and [c[0] for c in rec.ffis[0].calls] == ['emit_c_code'], inputs)
+                            and [c[0] for c in rec.ffis[0].calls] == ['set_source', 'emit_c_code'], inputs)
             dash = ex.decide(out._eq_term('-'))
             check_output(ex, rec, dash, out, gen, name + (':stdout' if dash else ':file'), inputs)
             hutil.discharge(chk, ex, name + ':script-file-closed', pyf.closed, inputs)
@@ -261,7 +363,8 @@ def run(chk):
     chk.bounds = {'cdef / prelude / module name / generated text': 'every Unicode string of each length 0..%d' % N,
                   'output argument': "every 1-character string ('-' or a path)", '--ffi-var': 'every 2-character name over {f, b, _}',
                   'scripts': ['FFI bound directly', 'callable returning an FFI', 'not an FFI', 'callable returning a non-FFI', '__main__ guard']}
-    chk.outside = ['argparse and the real file encodings', 'FFI.emit_c_code itself (uninterpreted: a fresh symbolic text)',
+    chk.outside = ['argparse and the real file encodings', 'the text generator proper (Recompiler.write_source_to_f: a fresh symbolic text); '
+                   'FFI.emit_c_code / recompile / make_c_source themselves ARE executed (they print to stdout)',
                    'longer texts (the code never inspects the texts)']
     chk.assume('emit_c_code is a function of (cdef text, module name, prelude): modelled by an arbitrary text written by the recorder')
     chk.functions = [{'name': n, 'file': 'src/cffi/_cffi_gen_src.py'} for n in
